@@ -72,6 +72,15 @@ def build(race=False):
     os.makedirs(os.path.join(ROOT, ".build"), exist_ok=True)
     out = os.path.join(ROOT, ".build", "checks%s.%d.test" % (".race" if race else "", os.getpid()))
     cmd = ["go", "test", "-c", "-tags", "verif", "-o", out]
+    alt = os.environ.get("VERIF_REPO")
+    if alt and os.path.abspath(alt) != REPO:
+        # sensitivity runs against a scratch copy of the repository (seeded changes):
+        # same module file with the replace directive pointing at the copy
+        mod = open(os.path.join(ROOT, "go.mod")).read().replace("=> " + REPO, "=> " + os.path.abspath(alt))
+        modfile = os.path.join(ROOT, ".build", "go.%d.mod" % os.getpid())
+        open(modfile, "w").write(mod)
+        shutil.copyfile(os.path.join(ROOT, "go.sum"), modfile[:-4] + ".sum")
+        cmd += ["-modfile", modfile]
     if race:
         cmd.append("-race")
     cmd.append("./checks")
